@@ -757,3 +757,114 @@ func genGraphCase(n int, adj []uint, nodeKind []int) *vCase {
 	c.sets = []vSet{s}
 	return c
 }
+
+// ---- C10: permutation and regrouping variants ---------------------------------------------
+
+func cloneCase(c *vCase) *vCase {
+	d := *c
+	d.sets = make([]vSet, len(c.sets))
+	for i, s := range c.sets {
+		t := s
+		t.args = append([]int(nil), s.args...)
+		t.imports = append([]int(nil), s.imports...)
+		t.provs = append([]vProv(nil), s.provs...)
+		t.vals = append([]vVal(nil), s.vals...)
+		t.flds = append([]vFld(nil), s.flds...)
+		t.bnds = append([]vBnd(nil), s.bnds...)
+		d.sets[i] = t
+	}
+	return &d
+}
+
+// permVariant shuffles every argument list of every set.
+func permVariant(r *rand.Rand, c *vCase) *vCase {
+	d := cloneCase(c)
+	for k := range d.sets {
+		s := &d.sets[k]
+		r.Shuffle(len(s.provs), func(a, b int) { s.provs[a], s.provs[b] = s.provs[b], s.provs[a] })
+		r.Shuffle(len(s.bnds), func(a, b int) { s.bnds[a], s.bnds[b] = s.bnds[b], s.bnds[a] })
+		r.Shuffle(len(s.flds), func(a, b int) { s.flds[a], s.flds[b] = s.flds[b], s.flds[a] })
+		r.Shuffle(len(s.vals), func(a, b int) { s.vals[a], s.vals[b] = s.vals[b], s.vals[a] })
+		r.Shuffle(len(s.imports), func(a, b int) { s.imports[a], s.imports[b] = s.imports[b], s.imports[a] })
+	}
+	return d
+}
+
+// flatVariant inlines every set reachable from the Build set into the Build set itself.
+func flatVariant(c *vCase) *vCase {
+	d := cloneCase(c)
+	last := len(d.sets) - 1
+	flat := vSet{id: d.sets[last].id, hasArgs: d.sets[last].hasArgs, args: d.sets[last].args}
+	seen := map[int]bool{}
+	var walk func(k int)
+	walk = func(k int) {
+		if seen[k] {
+			return
+		}
+		seen[k] = true
+		s := c.sets[k]
+		flat.provs = append(flat.provs, s.provs...)
+		flat.vals = append(flat.vals, s.vals...)
+		flat.flds = append(flat.flds, s.flds...)
+		flat.bnds = append(flat.bnds, s.bnds...)
+		for _, i := range s.imports {
+			walk(i)
+		}
+	}
+	walk(last)
+	d.sets = []vSet{flat}
+	return d
+}
+
+// splitVariant moves a random subset of the Build set's non-binding items into a fresh nested set;
+// a binding follows the provider of its concrete type.
+func splitVariant(r *rand.Rand, c *vCase) *vCase {
+	d := cloneCase(c)
+	last := len(d.sets) - 1
+	b := d.sets[last]
+	nested := vSet{id: 900}
+	keep := vSet{id: b.id, hasArgs: b.hasArgs, args: b.args, imports: b.imports}
+	moved := map[int]bool{} // type ids whose source moved
+	for _, p := range b.provs {
+		if r.Intn(2) == 0 {
+			nested.provs = append(nested.provs, p)
+			for _, o := range p.outs {
+				moved[o] = true
+			}
+		} else {
+			keep.provs = append(keep.provs, p)
+		}
+	}
+	for _, v := range b.vals {
+		if r.Intn(2) == 0 {
+			nested.vals = append(nested.vals, v)
+			moved[v.out] = true
+		} else {
+			keep.vals = append(keep.vals, v)
+		}
+	}
+	for _, f := range b.flds {
+		if r.Intn(2) == 0 {
+			nested.flds = append(nested.flds, f)
+			for _, o := range f.outs {
+				moved[o] = true
+			}
+		} else {
+			keep.flds = append(keep.flds, f)
+		}
+	}
+	for _, bd := range b.bnds {
+		if moved[bd.provided] {
+			nested.bnds = append(nested.bnds, bd)
+		} else {
+			keep.bnds = append(keep.bnds, bd)
+		}
+	}
+	if len(nested.provs)+len(nested.vals)+len(nested.flds) == 0 {
+		return nil
+	}
+	d.sets = append(append([]vSet(nil), d.sets[:last]...), nested)
+	keep.imports = append(append([]int(nil), keep.imports...), last)
+	d.sets = append(d.sets, keep)
+	return d
+}
